@@ -313,12 +313,57 @@ def run_malformed(ctx: Ctx):
         ctx.hist("malformed", "rejected")
 
 
+def run_tensor(ctx: Ctx):
+    """`tensor_times_gg` (the action on ONE tensor, exported next to `times_group_element`): must be the
+    same action as the image-level entry points on a one-pixel image, det(g)^p g^{(x)k} T"""
+    import jax
+    import jax.numpy as jnp
+    import ginjax.geometric as geom
+
+    if not hasattr(geom, "tensor_times_gg"):
+        return
+    for d in (1, 2, 3):
+        gs = group_elements(ctx, d)
+        for k in (0, 1, 2, 3):
+            for p in (0, 1):
+                for gi, g in enumerate(gs):
+                    if ctx.tier == "quick" and d == 3 and gi % 2 != (k + p) % 2:
+                        continue
+                    t = ctx.rng.integers(-4, 5, size=(d,) * k).astype(np.int64)
+                    if k == 0 and int(t) == 0:
+                        t = np.int64(3)
+                    case = {"entry": "geom.tensor_times_gg", "D": d, "k": k, "parity": p, "g": mat_list(g),
+                            "tensor": jarr(np.asarray(t))}
+                    ctx.case(("tt", d, k, p, mat_list(g), np.asarray(t).tobytes().hex()[:64]),
+                             not np.array_equal(np.asarray(g), np.eye(d, dtype=np.int64)),
+                             sample={k2: case[k2] for k2 in ("entry", "D", "k", "parity", "g")})
+                    ctx.hist("entry", "tensor_times_gg")
+                    img = np.asarray(t).reshape((1,) * d + (d,) * k)
+                    try:
+                        out = geom.tensor_times_gg(jnp.array(t, dtype=jnp.float32), p, np.asarray(g),
+                                                   jax.lax.Precision.HIGHEST)
+                        impl = to_int(out)
+                    except Exception as e:
+                        case["raised"] = repr(e)[:300]
+                        ctx.violation("oracle", "tensor_times_gg raised on a valid input", case)
+                        continue
+                    spec = model_tge(ctx, d, g, p, img, "c02.act_spec").reshape((d,) * k)
+                    model = model_tge(ctx, d, g, p, img, "c02.tge").reshape((d,) * k)
+                    if impl is None or impl.shape != spec.shape or not np.array_equal(impl, spec):
+                        case["impl"] = None if impl is None else jarr(impl)
+                        case["expected"] = jarr(spec)
+                        ctx.violation("oracle", "tensor_times_gg differs from det^p g^{(x)k} T", case)
+                    elif not np.array_equal(model, impl):
+                        ctx.violation("correspondence", "tensor_times_gg differs from Lean model tge on a one-pixel image", case)
+
+
 def run(ctx: Ctx):
     ctx.rule = (
         "d in {1,2,3}; spatial shapes incl. extent 1, non-square and pairwise distinct extents; k in 0..3; "
         "both parities; all of B_1, B_2 and (quick) 5 three-cycles + 7 other elements of B_3 / (thorough) all 48; "
         "position-encoded and random integer images; laws on all (g,h) pairs of B_1, B_2 and 60 (quick) / all 2304 "
-        "(thorough) pairs of B_3; GeometricImage and MultiImage entry points with random flags and 0-2 leading axes. "
+        "(thorough) pairs of B_3; GeometricImage and MultiImage entry points with random flags and 0-2 leading axes; "
+        "the single-tensor entry point tensor_times_gg for k in 0..3 (= the action on a one-pixel image). "
         "Non-trivial: g is not the identity and the image is not constant (for pairs: both non-identity; for the "
         "multi-image entry point: at least one leading axis). Distinct = distinct (entry, d, shape, k, p, g, image)."
     )
@@ -326,5 +371,6 @@ def run(ctx: Ctx):
     ctx.trusted_extra = ["np.rint, np.remainder, jnp.einsum, slogdet sign are modelled by rintHalf, Int.emod, tactL, det"]
     run_malformed(ctx)
     run_single(ctx)
+    run_tensor(ctx)
     run_entry_points(ctx)
     run_laws(ctx)
